@@ -97,4 +97,126 @@ theorem delivered_of_mem (pre : List Nat) (batches : List (List Nat)) (droppedId
     · exact absurd h hx.2
     · exact h
 
+/-! ### the chunk loop -/
+
+theorem chunkExport_succ (size n : Nat) (res : List Bool) (l : List Nat) (hnil : l ≠ []) :
+    chunkExport size (n + 1) res l =
+      (l.take size :: (chunkExport size n res.tail (l.drop size)).1,
+       !(res.headD true) || (chunkExport size n res.tail (l.drop size)).2) := by
+  simp [chunkExport, hnil]
+
+theorem chunkExport_spec (size : Nat) (hpos : 1 ≤ size) : ∀ (n : Nat) (res : List Bool) (l : List Nat), l.length ≤ n →
+    (chunkExport size n res l).1.flatten = l ∧
+    (∀ c ∈ (chunkExport size n res l).1, c.length ≤ size ∧ c ≠ []) ∧
+    ((chunkExport size n res l).2 = true ↔ ∃ i, i < (chunkExport size n res l).1.length ∧ res.getD i true = false) := by
+  intro n
+  induction n with
+  | zero =>
+    intro res l hl
+    have : l = [] := List.eq_nil_of_length_eq_zero (by omega)
+    subst this
+    simp [chunkExport]
+  | succ n ih =>
+    intro res l hl
+    by_cases hnil : l = []
+    · subst hnil; simp [chunkExport]
+    · have hlen : 0 < l.length := List.length_pos_iff.mpr hnil
+      have hd : (l.drop size).length ≤ n := by simp; omega
+      obtain ⟨h1, h2, h3⟩ := ih res.tail (l.drop size) hd
+      rw [chunkExport_succ size n res l hnil]
+      generalize chunkExport size n res.tail (l.drop size) = r at h1 h2 h3
+      refine ⟨?_, ?_, ?_⟩
+      · simp only [List.flatten_cons, h1, List.take_append_drop]
+      · intro c hc
+        simp only [List.mem_cons] at hc
+        rcases hc with hc | hc
+        · subst hc
+          refine ⟨by simp; omega, ?_⟩
+          intro he
+          have h0 : (l.take size).length = 0 := by rw [he]; rfl
+          rw [List.length_take] at h0
+          omega
+        · exact h2 c hc
+      · simp only [Bool.or_eq_true, Bool.not_eq_true', List.length_cons]
+        constructor
+        · rintro (h | h)
+          · refine ⟨0, by omega, ?_⟩
+            cases res <;> simp_all
+          · obtain ⟨i, hi, hr⟩ := h3.mp h
+            exact ⟨i + 1, Nat.succ_lt_succ hi, by cases res <;> simp_all⟩
+        · rintro ⟨i, hi, hr⟩
+          cases i with
+          | zero => left; cases res <;> simp_all
+          | succ i =>
+            right
+            refine h3.mpr ⟨i, by omega, ?_⟩
+            cases res <;> simp_all
+
+theorem exportLoop_reachable : ∀ (n : Nat) (res : List Bool) (s s' : St), Reachable cap batch buf s →
+    exportLoop n res s = some s' → Reachable cap batch buf s' := by
+  intro n
+  induction n with
+  | zero => intro res s s' h he; simp [exportLoop] at he; subst he; exact h
+  | succ n ih =>
+    intro res s s' h he
+    simp only [exportLoop] at he
+    split at he
+    · split at he
+      · simp at he
+      · rename_i s1 h1
+        split at he
+        · simp at he
+        · rename_i s2 h2
+          exact ih _ _ _ (Reachable.step _ (Reachable.step _ h h1) h2) he
+    · simp at he; subst he; exact h
+
+theorem eStart_some (s : St) (hh : s.eph = .have) :
+    ∃ s1, step s .eStart = some s1 ∧ s1.eph = .busy ∧ s1.exported = s.exported ++ [s.curRem.take s.batch] ∧
+      s1.curRem = s.curRem.drop s.batch ∧ s1.batch = s.batch := by
+  simp only [step, hh, if_true]
+  exact ⟨_, rfl, rfl, rfl, rfl, rfl⟩
+
+theorem eEnd_last (s1 : St) (ok : Bool) (hb : s1.eph = .busy) (hl : s1.curRem = []) :
+    ∃ s2, step s1 (.eEnd ok) = some s2 ∧ s2.eph = .idle ∧ s2.curRem = [] ∧ s2.exported = s1.exported := by
+  simp only [step, hb, hl, if_true]
+  split <;> exact ⟨_, rfl, rfl, by simp [hl], rfl⟩
+
+theorem eEnd_more (s1 : St) (ok : Bool) (hb : s1.eph = .busy) (hl : s1.curRem ≠ []) :
+    ∃ s2, step s1 (.eEnd ok) = some s2 ∧ s2.eph = .have ∧ s2.curRem = s1.curRem ∧ s2.exported = s1.exported ∧
+      s2.batch = s1.batch := by
+  simp only [step, hb, hl, if_true, if_false]
+  exact ⟨_, rfl, rfl, rfl, rfl, rfl⟩
+
+/-- the LTS performs exactly the calls of `chunkExport`, whatever the results -/
+theorem exportLoop_spec : ∀ (n : Nat) (res : List Bool) (s : St), 1 ≤ s.batch → s.eph = .have → s.curRem ≠ [] →
+    s.curRem.length ≤ n →
+    ∃ s', exportLoop n res s = some s' ∧ s'.eph = .idle ∧ s'.curRem = [] ∧
+      s'.exported = s.exported ++ (chunkExport s.batch n res s.curRem).1 := by
+  intro n
+  induction n with
+  | zero =>
+    intro res s _ _ hne hl
+    exact absurd (List.eq_nil_of_length_eq_zero (by omega)) hne
+  | succ n ih =>
+    intro res s hb hh hne hl
+    have hlen : 0 < s.curRem.length := List.length_pos_iff.mpr hne
+    have hd : (s.curRem.drop s.batch).length ≤ n := by simp; omega
+    obtain ⟨s1, h1, hb1, hx1, hc1, hbt1⟩ := eStart_some s hh
+    rw [chunkExport_succ s.batch n res s.curRem hne]
+    simp only [exportLoop, hh, if_true, h1]
+    by_cases hlast : s1.curRem = []
+    · obtain ⟨s2, h2, hi2, hc2, hx2⟩ := eEnd_last s1 (res.headD true) hb1 hlast
+      simp only [h2]
+      have hce : (chunkExport s.batch n res.tail (s.curRem.drop s.batch)).1 = [] := by
+        rw [← hc1, hlast]; cases n <;> simp [chunkExport]
+      refine ⟨s2, ?_, hi2, hc2, by rw [hx2, hx1, hce]⟩
+      cases n <;> simp [exportLoop, hi2]
+    · obtain ⟨s2, h2, hh2, hc2, hx2, hbt2⟩ := eEnd_more s1 (res.headD true) hb1 hlast
+      simp only [h2]
+      have hb2 : 1 ≤ s2.batch := by rw [hbt2, hbt1]; exact hb
+      obtain ⟨s', hs', hi, hc, hx⟩ := ih res.tail s2 hb2 hh2 (by rw [hc2]; exact hlast) (by rw [hc2, hc1]; exact hd)
+      refine ⟨s', hs', hi, hc, ?_⟩
+      rw [hx, hx2, hx1, hbt2, hbt1, hc2, hc1]
+      simp [List.append_assoc]
+
 end Otel.C06
